@@ -6,6 +6,11 @@
 //! Cast: alice, bob, carol (users), dave (flow creator), owner (factory owner); every one of them may
 //! send any op. Assets: 0 = LP (native `ulp` or cw20), 1 = `uwhale`, 2 = `ureward` (native),
 //! 3 = cw20 A, 4 = cw20 B. The flow-creation fee asset is any of them (init line).
+//! Assets 5..=9 are the same five NAMES in the WRONG KIND (`a + 5` = look-alike of `a`): for a cw20 asset
+//! the native denom that spells the token's address (every actor holds coins of that denom, so it is a
+//! real, distinct asset: flows can be opened in it), for a native asset the cw20 `Token { contract_addr }`
+//! that spells the denom (no such contract exists: "dead", it cannot be offered and holds no balances).
+//! Every op that names an asset (`open_flow`, `expand_flow`, `helper_deposit_as`) accepts ids 0..=9.
 //!
 //! Op line:  `<epoch> <time_s> <sender> <op> <args…> [<asset>:<amount> …]`
 //! the trailing `asset:amount` tokens are what the sender *offers*: a native asset is attached as
@@ -25,7 +30,18 @@ use white_whale_std::pool_network::frontend_helper as hm;
 use white_whale_std::pool_network::incentive as im;
 use white_whale_std::pool_network::incentive_factory as fm;
 
-pub const NA: usize = 5;
+/// base assets
+pub const NB: usize = 5;
+/// base assets + their wrong-kind look-alikes
+pub const NA: usize = 10;
+/// the same name in the other kind
+fn twin(a: usize) -> usize {
+    if a < NB {
+        a + NB
+    } else {
+        a - NB
+    }
+}
 const ACTORS: [&str; 5] = ["alice", "bob", "carol", "dave", "owner"];
 /// accounts whose balances are observed: index 0 = incentive contract, 1..=5 actors, 6 collector, 7 helper, 8 pair
 const ACCTS: [&str; 9] = ["inc", "alice", "bob", "carol", "dave", "owner", "collector", "helper", "pair"];
@@ -95,6 +111,11 @@ fn pair_contract() -> Box<dyn cw_multi_test::Contract<Empty>> {
                     Ok(Response::new())
                 }
                 PairMockExec::ProvideLiquidity { assets, .. } => {
+                    // like a real pair: the deposited assets must be the pair's own two assets (kind and name)
+                    let own = PAIR_ASSETS.load(d.storage)?;
+                    if !(assets.iter().all(|a| own.contains(&a.info)) && assets[0].info != assets[1].info) {
+                        return Err(StdError::generic_err("asset mismatch"));
+                    }
                     let mut msgs: Vec<CosmosMsg> = vec![];
                     let mut lp = Uint128::zero();
                     for a in assets.iter() {
@@ -215,7 +236,7 @@ struct World {
     app: App,
     cfg: Cfg,
     addr: Vec<Addr>,
-    token: [Option<Addr>; NA],
+    token: [Option<Addr>; NB],
     epoch_src: Addr,
     cur_epoch: u64,
     prev: Obs,
@@ -269,16 +290,30 @@ fn kind_native(cfg: &Cfg, a: usize) -> bool {
     match a {
         0 => cfg.lp_native,
         1 | 2 => true,
-        _ => false,
+        3 | 4 => false,
+        _ => !kind_native(cfg, a - NB),
     }
+}
+/// a cw20 `Token { contract_addr }` naming a native denom: no contract lives there
+fn dead(cfg: &Cfg, a: usize) -> bool {
+    a >= NB && !kind_native(cfg, a)
 }
 
 impl World {
+    /// the NAME of asset `a` (shared with its look-alike): the native denom or the cw20 address
+    fn name(&self, a: usize) -> String {
+        let b = a % NB;
+        if kind_native(&self.cfg, b) {
+            NATIVE_DENOM[b].to_string()
+        } else {
+            self.token[b].clone().unwrap().to_string()
+        }
+    }
     fn info(&self, a: usize) -> AssetInfo {
         if kind_native(&self.cfg, a) {
-            AssetInfo::NativeToken { denom: NATIVE_DENOM[a].into() }
+            AssetInfo::NativeToken { denom: self.name(a) }
         } else {
-            AssetInfo::Token { contract_addr: self.token[a].clone().unwrap().to_string() }
+            AssetInfo::Token { contract_addr: self.name(a) }
         }
     }
     /// C12 observation point `Flow{identifier}`
@@ -335,7 +370,9 @@ impl World {
     }
     fn balance(&self, who: &Addr, a: usize) -> u128 {
         if kind_native(&self.cfg, a) {
-            self.app.wrap().query_balance(who, NATIVE_DENOM[a]).unwrap().amount.u128()
+            self.app.wrap().query_balance(who, self.name(a)).unwrap().amount.u128()
+        } else if dead(&self.cfg, a) {
+            0
         } else {
             let r: cw20::BalanceResponse = self
                 .app
@@ -390,8 +427,8 @@ impl World {
         let epoch_src =
             app.instantiate_contract(epoch_id, owner.clone(), &EpochInst { id: cfg.e0 }, &[], "epochs", None).unwrap();
         let pair = app.instantiate_contract(pair_id, owner.clone(), &Empty {}, &[], "pair", None).unwrap();
-        let mut token: [Option<Addr>; NA] = [None, None, None, None, None];
-        for a in 0..NA {
+        let mut token: [Option<Addr>; NB] = [None, None, None, None, None];
+        for a in 0..NB {
             if kind_native(&cfg, a) {
                 continue;
             }
@@ -418,6 +455,18 @@ impl World {
                 )
                 .unwrap();
             token[a] = Some(t);
+        }
+        // every actor holds coins of the native denoms that spell the cw20 tokens' addresses
+        for a in 0..NB {
+            if let Some(t) = &token[a] {
+                for n in ACTORS.iter() {
+                    app.sudo(cw_multi_test::SudoMsg::Bank(cw_multi_test::BankSudo::Mint {
+                        to_address: n.to_string(),
+                        amount: vec![coin(BAL0, t.to_string())],
+                    }))
+                    .unwrap();
+                }
+            }
         }
         if cfg.lp_native {
             // the mock pair hands out native LP from a pre-funded balance
@@ -558,6 +607,13 @@ impl World {
     }
 
     fn observe(&self) -> Obs {
+        self.observe_from(None)
+    }
+
+    /// `base`: an observation taken since the last message to the incentive contract / helper; only what depends
+    /// on the current epoch (snapshot, share and rewards queries) is read again, the raw storage items, the
+    /// positions and the balances are taken from it (moving the epoch source or a cw20 allowance changes none)
+    fn observe_from(&self, base: Option<&Obs>) -> Obs {
         let inc = self.addr[0].clone();
         let wrap = self.app.wrap();
         let gw: u128 = wrap
@@ -573,8 +629,10 @@ impl World {
         let mut pos = vec![];
         let mut share = vec![];
         let mut rewards = vec![];
+        let base = base.filter(|b| b.pos.len() == 5 && b.aw.len() == 5 && b.bal.len() == self.addr.len());
         for i in 1..=5 {
             let who = &self.addr[i];
+            if base.is_none() {
             let mut k = vec![0u8, 14];
             k.extend_from_slice(b"address_weight");
             k.extend_from_slice(who.as_bytes());
@@ -604,6 +662,7 @@ impl World {
                     Outcome::Panic => Q::Panic,
                 },
             );
+            }
             share.push(
                 match guarded(|| {
                     wrap.query_wasm_smart::<im::RewardsShareResponse>(&inc, &im::QueryMsg::CurrentEpochRewardsShare { address: who.to_string() })
@@ -614,6 +673,9 @@ impl World {
                 },
             );
             rewards.push(self.q_rewards(who));
+        }
+        if let Some(b) = base {
+            return Obs { epoch: self.cur_epoch, gw: b.gw, snap, aw: b.aw.clone(), pos: b.pos.clone(), share, rewards, flows: b.flows.clone(), bal: b.bal.clone() };
         }
         // the Flows query gives the keys in FLOWS order; the items themselves are read raw because the query
         // filters asset_history / emitted_tokens to a 100-epoch window
@@ -739,7 +801,8 @@ enum OpK {
     OpenFlow { asset: usize, amount: u128, start: Option<u64>, end: Option<u64> },
     ExpandFlow { id: u64, asset: usize, amount: u128, end: Option<u64> },
     CloseFlow { id: u64 },
-    HelperDeposit { a0: u128, a1: u128, dur: u64 },
+    /// `x0`, `x1`: the asset ids the two deposited assets are NAMED with (1 and 3, or their look-alikes 6 / 8)
+    HelperDeposit { x0: usize, x1: usize, a0: u128, a1: u128, dur: u64 },
 }
 
 #[derive(Clone, Debug)]
@@ -778,6 +841,7 @@ fn parse_op(ws: &[&str]) -> Option<Op> {
     let sender = actor_idx(ws[2])?;
     let nargs = match ws[3] {
         "open_position" | "expand_position" | "helper_deposit" => 3,
+        "helper_deposit_as" => 5,
         "close_position" | "close_flow" => 1,
         "withdraw" | "claim" | "snapshot" => 0,
         "open_flow" | "expand_flow" => 4,
@@ -809,7 +873,14 @@ fn parse_op(ws: &[&str]) -> Option<Op> {
             OpK::ExpandFlow { id: a[0].parse().ok()?, asset, amount: a[2].parse().ok()?, end: opt_u64(a[3])? }
         }
         "close_flow" => OpK::CloseFlow { id: a[0].parse().ok()? },
-        "helper_deposit" => OpK::HelperDeposit { a0: a[0].parse().ok()?, a1: a[1].parse().ok()?, dur: a[2].parse().ok()? },
+        "helper_deposit" => OpK::HelperDeposit { x0: 1, x1: 3, a0: a[0].parse().ok()?, a1: a[1].parse().ok()?, dur: a[2].parse().ok()? },
+        "helper_deposit_as" => {
+            let (x0, x1): (usize, usize) = (a[0].parse().ok()?, a[1].parse().ok()?);
+            if !((x0 == 1 || x0 == 6) && (x1 == 3 || x1 == 8)) || (x0, x1) == (1, 3) {
+                return None;
+            }
+            OpK::HelperDeposit { x0, x1, a0: a[2].parse().ok()?, a1: a[3].parse().ok()?, dur: a[4].parse().ok()? }
+        }
         _ => return None,
     };
     let mut offers = vec![];
@@ -842,7 +913,7 @@ pub struct Incentive {
     /// scripted scenario: op lines (without the `<epoch> <time>` prefix) emitted next, each with the
     /// number of epochs and seconds to advance BEFORE it (reversed: popped from the end)
     g_script: Vec<(u64, u64, String)>,
-    g_scen_done: [bool; 2],
+    g_scen_done: [bool; 5],
 }
 
 fn sum_pos(o: &Obs) -> Option<u128> {
@@ -893,7 +964,7 @@ impl Incentive {
             })
         })();
         let cfg = match cfg {
-            Some(c) if c.fee_asset < NA && c.max_flows > 0 && c.min_dur <= c.max_dur => c,
+            Some(c) if c.fee_asset < NA && !dead(&c, c.fee_asset) && c.max_flows > 0 && c.min_dur <= c.max_dur => c,
             _ => return "bad-op".into(),
         };
         mon.stat(&format!("cfg_lp_{}", if cfg.lp_native { "native" } else { "cw20" }));
@@ -997,6 +1068,10 @@ impl Incentive {
 
     fn exec_op(&mut self, op: &Op, mon: &mut Monitor) -> String {
         let w = self.w.as_mut().unwrap();
+        // a token that does not exist cannot be offered (no allowance can be set on it)
+        if op.offers.iter().any(|o| dead(&w.cfg, o.0)) {
+            return "bad-op".into();
+        }
         w.steps += 1;
         w.set_epoch(op.epoch);
         w.app.update_block(|b| {
@@ -1015,14 +1090,17 @@ impl Incentive {
             let off = op.offers.iter().find(|o| o.0 == a).map(|o| o.1).unwrap_or(0);
             if kind_native(&w.cfg, a) {
                 if off > 0 {
-                    funds.push(coin(off, NATIVE_DENOM[a]));
+                    funds.push(coin(off, w.name(a)));
                 }
-            } else {
+            } else if !dead(&w.cfg, a) {
                 w.set_allowance(&sender, &target, a, off);
             }
         }
-        // a fresh pre-state (epoch and allowances may have changed what the queries answer)
-        let pre = w.observe();
+        // the chain hands the coins over sorted by denom
+        funds.sort_by(|x, y| x.denom.cmp(&y.denom));
+        // a fresh pre-state (the epoch may have changed what the queries answer; storage, positions and balances
+        // are as the last observation has them)
+        let pre = w.observe_from(Some(&w.prev));
         // weight oracle: the weight in effect for an epoch is the live address weight before the first
         // operation of that epoch (epochs without operations inherit it)
         if op.epoch > w.obs_epoch && op.epoch - w.obs_epoch <= ORACLE_SPAN && pre.aw.len() == 5 {
@@ -1040,17 +1118,9 @@ impl Incentive {
         }
         let quoted = if matches!(op.k, OpK::Claim) { Some(w.q_rewards(&sender)) } else { None };
         let recv_s = |r: &Option<usize>| r.map(|i| ACCTS[i].to_string());
+        let infos: Vec<AssetInfo> = (0..NA).map(|a| w.info(a)).collect();
         let out: Outcome<()> = {
             let app = &mut w.app;
-            let infos: Vec<AssetInfo> = (0..NA)
-                .map(|a| {
-                    if kind_native(&w.cfg, a) {
-                        AssetInfo::NativeToken { denom: NATIVE_DENOM[a].into() }
-                    } else {
-                        AssetInfo::Token { contract_addr: w.token[a].clone().unwrap().to_string() }
-                    }
-                })
-                .collect();
             let pair = w.addr[8].to_string();
             guarded(|| {
                 let r = match &op.k {
@@ -1102,14 +1172,14 @@ impl Incentive {
                         &im::ExecuteMsg::CloseFlow { flow_identifier: im::FlowIdentifier::Id(*id) },
                         &funds,
                     ),
-                    OpK::HelperDeposit { a0, a1, dur } => app.execute_contract(
+                    OpK::HelperDeposit { x0, x1, a0, a1, dur } => app.execute_contract(
                         sender.clone(),
                         target.clone(),
                         &hm::ExecuteMsg::Deposit {
                             pair_address: pair.clone(),
                             assets: [
-                                Asset { info: infos[1].clone(), amount: (*a0).into() },
-                                Asset { info: infos[3].clone(), amount: (*a1).into() },
+                                Asset { info: infos[*x0].clone(), amount: (*a0).into() },
+                                Asset { info: infos[*x1].clone(), amount: (*a1).into() },
                             ],
                             slippage_tolerance: None,
                             unbonding_duration: *dur,
@@ -1132,6 +1202,40 @@ impl Incentive {
         };
         let post = w.observe();
         let cfg = w.cfg.clone();
+        // ops that name an asset in the wrong kind (statistics: how often, how paid, how answered)
+        {
+            let paid_in = |a: usize| op.offers.iter().any(|o| o.0 == a);
+            let how = |named: usize| -> String {
+                let own = paid_in(named);
+                let other = paid_in(twin(named));
+                format!(
+                    "{}_{}_{}",
+                    if kind_native(&cfg, named) { "denom_spelling_a_token" } else { "token_spelling_a_denom" },
+                    match (own, other) {
+                        (true, true) => "paid_in_both_kinds",
+                        (true, false) => "paid_in_the_named_kind",
+                        (false, true) => "paid_in_the_other_kind",
+                        (false, false) => "unpaid",
+                    },
+                    tag
+                )
+            };
+            match &op.k {
+                OpK::OpenFlow { asset, .. } if *asset >= NB => mon.stat(&format!("open_flow_naming_{}", how(*asset))),
+                OpK::ExpandFlow { id, asset, .. } => {
+                    if let Some(f) = pre.flows.iter().find(|f| f.id == *id) {
+                        if f.asset < NA && *asset == twin(f.asset) {
+                            mon.stat(&format!("expand_flow_naming_the_other_kind_{}", how(*asset)));
+                        }
+                    }
+                }
+                OpK::HelperDeposit { x0, x1, .. } if (*x0, *x1) != (1, 3) => mon.stat(&format!("helper_deposit_naming_wrong_kind_{tag}")),
+                _ => {}
+            }
+            if matches!(op.k, OpK::OpenPos { .. } | OpK::ExpandPos { .. }) && paid_in(5) {
+                mon.stat(&format!("position_offered_lookalike_lp_coins_{tag}"));
+            }
+        }
         let last_claim = w.last_claim_ok.get(&op.sender).cloned();
         if ok {
             if let OpK::Claim = op.k {
@@ -1149,7 +1253,8 @@ impl Incentive {
             if let Some(f0) = pre.flows.iter().find(|f| f.id == *id) {
                 let exp_end = f0.hist.last().map(|h| h.2).unwrap_or(f0.end);
                 let reset = exp_end.saturating_sub(f0.start) > 180;
-                let native = kind_native(&cfg, *asset);
+                let _ = asset;
+                let native = kind_native(&cfg, f0.asset);
                 expand_tag = match (native, reset, f0.hist.is_empty()) {
                     (false, true, true) => "cw20_reset_empty_history".to_string(),
                     (false, true, false) => "cw20_reset".to_string(),
@@ -1162,9 +1267,11 @@ impl Incentive {
                 // contract's balance moved apart in this expansion
                 if let Some(f1) = post.flows.iter().find(|f| f.id == *id) {
                     let d_liab = (f1.funded() as i128 - f1.claimed as i128) - (f0.funded() as i128 - f0.claimed as i128);
-                    let recv = post.bal[0][*asset] as i128 - pre.bal[0][*asset] as i128;
-                    if recv != d_liab {
-                        w.taint[*asset] |= 1;
+                    if f0.asset < NA {
+                        let recv = post.bal[0][f0.asset] as i128 - pre.bal[0][f0.asset] as i128;
+                        if recv != d_liab {
+                            w.taint[f0.asset] |= 1;
+                        }
                     }
                 }
                 if reset {
@@ -1261,6 +1368,26 @@ impl Incentive {
         }
         let taint = w.taint;
         let donated = w.lp_donated;
+        // how long the per-address histories / how many flows of the states visited are (statistics only)
+        for p in post.pos.iter() {
+            if let Q::Ok((o, c)) = p {
+                if c.len() > 32 {
+                    mon.stat("obs_address_with_closed_positions_33_plus");
+                }
+                if o.len() >= 16 {
+                    mon.stat("obs_address_with_open_positions_16_plus");
+                }
+            }
+        }
+        if post.flows.len() >= 5 {
+            mon.stat("obs_flows_5_plus");
+        }
+        if post.flows.len() as u64 == cfg.max_flows {
+            mon.stat("obs_flows_at_max_concurrent_flows");
+        }
+        if post.flows.iter().any(|f| f.asset >= NB) {
+            mon.stat("obs_flow_in_lookalike_asset");
+        }
         // ---------------- monitors ----------------
         w.monitor_flow_query(&post, mon);
         self.monitors_state(&post, &taint, donated, mon);
@@ -1391,15 +1518,60 @@ impl Incentive {
                         });
                     }
                 }
+                // whatever subset a withdrawal pays: it pays exactly the closed positions it removes (the ones left are
+                // among those that were there), to the sender, out of the contract
+                let mut left = p0.1.clone();
+                let mut subset = true;
+                for x in p1.1.iter() {
+                    match left.iter().position(|y| y == x) {
+                        Some(i) => {
+                            left.remove(i);
+                        }
+                        None => subset = false,
+                    }
+                }
+                let removed = left.iter().fold(0u128, |acc, x| acc.saturating_add(x.0));
+                mon.check("C11", "withdraw_pays_what_it_removes", subset && dbal(u, 0) == removed as i128 && dbal(0, 0) == -(removed as i128), || {
+                    format!(
+                        "withdraw with {} closed positions: {} left afterwards, the removed ones add up to {removed}, user LP {:+}, contract LP {:+}",
+                        p0.1.len(),
+                        p1.1.len(),
+                        dbal(u, 0),
+                        dbal(0, 0)
+                    )
+                });
                 let immature = p0.1.iter().filter(|x| x.1 > op.time).count();
                 if immature > 0 {
                     mon.stat("withdraw_before_unbonding_timestamp");
                 }
+                if immature > 0 && immature < p0.1.len() {
+                    mon.stat("withdraw_with_unlock_times_partly_passed");
+                }
+                mon.stat(match p0.1.len() {
+                    0 => "withdraw_with_closed_positions_0",
+                    1 => "withdraw_with_closed_positions_1",
+                    2..=8 => "withdraw_with_closed_positions_2_8",
+                    9..=32 => "withdraw_with_closed_positions_9_32",
+                    33..=64 => "withdraw_with_closed_positions_33_64",
+                    _ => "withdraw_with_closed_positions_65_plus",
+                });
+                mon.stat(match p0.0.len() {
+                    0..=3 => "withdraw_with_open_positions_0_3",
+                    4..=15 => "withdraw_with_open_positions_4_15",
+                    _ => "withdraw_with_open_positions_16_plus",
+                });
                 if owed > 0 {
                     mon.stat("withdraw_nonzero");
                 }
             }
-            OpK::HelperDeposit { a0, a1, dur } => {
+            OpK::HelperDeposit { x0, x1, .. } if (*x0, *x1) != (1, 3) => {
+                // the deposited assets were named in the wrong kind: neither the helper (allowance query on a
+                // token that does not exist) nor the pair (not its assets) lets that through
+                mon.check("C11", "helper_wrong_kind_deposit_refused", false, || {
+                    format!("helper deposit naming assets {x0}, {x1} (pair assets are 1, 3) was accepted")
+                });
+            }
+            OpK::HelperDeposit { a0, a1, dur, .. } => {
                 let lp = *a0 + *a1;
                 let before = pos_of(pre, ai).0.iter().find(|x| x.0 == *dur).map(|x| x.1).unwrap_or(0);
                 let after = pos_of(post, ai).0.iter().find(|x| x.0 == *dur).map(|x| x.1).unwrap_or(0);
@@ -1433,6 +1605,19 @@ impl Incentive {
                         mon.stat("open_flow_fee_excess_retained");
                     }
                     mon.stat(&format!("open_flow_ok_asset{}_{}", a, if a == cfg.fee_asset { "eqfee" } else { "nefee" }));
+                    if a >= NB {
+                        mon.stat("open_flow_ok_in_lookalike_asset");
+                    }
+                }
+                // whatever is named, only the named asset, the fee asset and what was attached can move
+                let quiet = (0..NA).filter(|b| *b != *asset && *b != cfg.fee_asset && op.offers.iter().all(|o| o.0 != *b)).all(|b| (0..9).all(|acct| dbal(acct, b) == 0));
+                mon.check("C12", "flow_op_moves_only_named_assets", quiet, || format!("open_flow in asset {asset} moved balances of an asset that was neither named, nor the fee asset, nor offered"));
+                // coins attached in an asset that is neither the flow asset nor the fee asset stay with the contract
+                // (a donation), they are never handed to anybody else
+                for o in op.offers.iter().filter(|o| o.0 != *asset && o.0 != cfg.fee_asset) {
+                    mon.check("C12", "flow_op_moves_only_named_assets", (1..9).all(|acct| acct == u || dbal(acct, o.0) == 0), || {
+                        format!("open_flow in asset {asset}: asset {} (offered, not named) reached a third party", o.0)
+                    });
                 }
             }
             OpK::ExpandFlow { id, asset, amount, .. } => {
@@ -1441,14 +1626,25 @@ impl Incentive {
                 if let (Some(f0), Some(f1)) = (f0, f1) {
                     let d_liab = (f1.funded() as i128 - f1.claimed as i128) - (f0.funded() as i128 - f0.claimed as i128);
                     let tag = expand_tag.to_string();
-                    mon.check_tag("C12", "expand_exact", &tag, dbal(0, *asset) == d_liab && d_liab == *amount as i128, || {
+                    // the flow's OWN asset (as the listing has it) is what must arrive, whatever the message named
+                    let fa = f0.asset.min(NA - 1);
+                    mon.check_tag("C12", "expand_exact", &tag, f0.asset < NA && dbal(0, fa) == d_liab && d_liab == *amount as i128, || {
                         format!(
-                            "expand_flow {id} by {amount} ({tag}): funded-claimed changed by {d_liab}, contract received {:+}, sender paid {:+}",
-                            dbal(0, *asset),
-                            -dbal(u, *asset)
+                            "expand_flow {id} (asset {}) by {amount} of asset {asset} ({tag}): funded-claimed changed by {d_liab}, contract received {:+} of the flow's asset, sender paid {:+}",
+                            f0.asset,
+                            dbal(0, fa),
+                            -dbal(u, fa)
                         )
                     });
+                    mon.check("C12", "expand_names_the_flow_asset", f0.asset == *asset && f1.asset == f0.asset, || {
+                        format!("flow {id} is denominated in asset {}; an expansion naming asset {asset} was accepted (flow asset afterwards {})", f0.asset, f1.asset)
+                    });
+                    let quiet = (0..NA).filter(|b| *b != fa && op.offers.iter().all(|o| o.0 != *b)).all(|b| (0..9).all(|acct| dbal(acct, b) == 0));
+                    mon.check("C12", "flow_op_moves_only_named_assets", quiet, || format!("expand_flow {id} moved balances of an asset that is neither the flow's nor offered"));
                     mon.stat(&format!("expand_flow_ok_{tag}"));
+                    if f0.asset >= NB {
+                        mon.stat("expand_flow_ok_of_lookalike_flow");
+                    }
                 } else {
                     mon.check("C12", "expand_keeps_flow", false, || format!("flow {id} missing before or after expansion"));
                 }
@@ -1555,6 +1751,13 @@ impl Incentive {
                         format!("claim at epoch {} on flow {}: paid {} > emission of epochs {}..={} = {}", op.epoch, f.id, d, first, op.epoch, bound)
                     });
                 }
+                let paying = post.flows.iter().filter(|f| pre.flows.iter().any(|g| g.id == f.id && g.claimed < f.claimed)).count();
+                if paying >= 4 {
+                    mon.stat("claim_paid_from_4_plus_flows");
+                }
+                if (NB..NA).any(|a| paid[a] > 0) {
+                    mon.stat("claim_paid_in_lookalike_asset");
+                }
                 if total_paid > 0 {
                     mon.stat("claim_paid_nonzero");
                 } else {
@@ -1583,6 +1786,18 @@ impl Incentive {
             8 => 4,
             _ => 0,
         };
+        // sometimes the fee is charged in a look-alike: the native denom that spells a cw20 token's address
+        let fee_asset = if rng.chance(1, 14) {
+            match rng.below(3) {
+                0 if !lp_native => 5,
+                1 => 9,
+                _ => 8,
+            }
+        } else {
+            fee_asset
+        };
+        // mostly 1..4 concurrent flows, sometimes many
+        let max_flows = if rng.chance(1, 6) { rng.range(5, 12) } else { rng.range(1, 4) };
         let fee_amt = match rng.below(6) {
             0 => 0,
             1 => 1,
@@ -1603,13 +1818,14 @@ impl Incentive {
         self.g_new_epoch = false;
         self.g_script.clear();
         // which scripted scenarios this case runs (the long-idle one costs ~150 ops: one case in five)
-        self.g_scen_done = [!rng.chance(1, 2), !rng.chance(1, 5)];
+        // [same-second unlocks, long idle, long per-address history, many flows and claims, look-alike assets]
+        self.g_scen_done = [!rng.chance(1, 2), !rng.chance(1, 5), !rng.chance(1, 7), !rng.chance(1, 10), !rng.chance(1, 3)];
         format!(
             "init incentive lp={} fee={} feeamt={} maxflows={} buffer={} mindur={} maxdur={} e0={}",
             if lp_native { "native" } else { "cw20" },
             fee_asset,
             fee_amt,
-            rng.range(1, 4),
+            max_flows,
             rng.range(0, 12),
             min_dur,
             max_dur,
@@ -1644,6 +1860,11 @@ impl Incentive {
 
     /// a well-funded `open_flow` body (`<acct> open_flow …` with exactly the funds the contract asks for)
     fn flow_body(cfg: &Cfg, acct: &str, asset: usize, amt: u128, start: u64, end: u64) -> String {
+        Self::flow_body_paid(cfg, acct, asset, asset, amt, start, end)
+    }
+
+    /// `open_flow` NAMING `named` while offering what a flow in `asset` would need
+    fn flow_body_paid(cfg: &Cfg, acct: &str, named: usize, asset: usize, amt: u128, start: u64, end: u64) -> String {
         let mut offs = String::new();
         if asset == cfg.fee_asset {
             offs.push_str(&format!(" {asset}:{amt}"));
@@ -1653,17 +1874,18 @@ impl Incentive {
             }
             offs.push_str(&format!(" {asset}:{amt}"));
         }
-        format!("{acct} open_flow {asset} {amt} {start} {end}{offs}")
+        format!("{acct} open_flow {named} {amt} {start} {end}{offs}")
     }
 
     /// scripted scenarios that random generation reaches too rarely; returns true when one was queued
     fn queue_scenario(&mut self, rng: &mut Rng) -> bool {
         let cfg = self.w.as_ref().unwrap().cfg.clone();
         let e = self.g_epoch;
-        let which = if !self.g_scen_done[1] { 1 } else { 0 };
-        if self.g_scen_done[which] {
+        let todo: Vec<usize> = (0..self.g_scen_done.len()).filter(|i| !self.g_scen_done[*i]).collect();
+        if todo.is_empty() {
             return false;
         }
+        let which = *rng.pick(&todo);
         self.g_scen_done[which] = true;
         let u = ACCTS[1 + rng.below(3) as usize];
         let mut sc: Vec<(u64, u64, String)> = vec![];
@@ -1691,6 +1913,147 @@ impl Incentive {
             }
             // later: everything unlocks, the address withdraws
             sc.push((rng.below(2), hi + 10, format!("{u} withdraw")));
+        } else if which == 2 {
+            // LONG per-address history: one address accumulates many closed positions (well beyond any small
+            // constant: 16, 31 … 34, 40, 63 … 65, 70, 100, or 9 … 130 at random) from batches of simultaneously open positions (1 … 40 at a time),
+            // all within one epoch right after a claim (no pending rewards), unlock times spread over the whole
+            // duration range; time then passes so that part of them are unlocked, and it withdraws, twice, closes
+            // some more and withdraws again
+            let lo = cfg.min_dur.max(MIN_D);
+            let hi = cfg.max_dur.min(MAX_D);
+            let n_target = if rng.chance(1, 4) { rng.range(9, 130) } else { *rng.pick(&[16u64, 31, 32, 33, 34, 40, 48, 63, 64, 65, 70, 100]) };
+            let batch = (*rng.pick(&[1u64, 4, 12, 20, 40])).min(n_target);
+            if hi - lo < 4 * batch + 8 {
+                return false;
+            }
+            let stepd = (hi - lo - 2) / (batch + 1);
+            let durs: Vec<u64> = (0..batch).map(|i| lo + 1 + i * stepd + rng.below(stepd.min(1000))).collect();
+            sc.push((0, 1, format!("{u} snapshot")));
+            sc.push((0, 1, format!("{u} claim")));
+            let mut closed = 0u64;
+            while closed < n_target {
+                let b = batch.min(n_target - closed) as usize;
+                for d in durs.iter().take(b) {
+                    let a = 1 + rng.log_uniform(30);
+                    sc.push((0, rng.below(3), format!("{u} open_position {a} {d} - 0:{a}")));
+                }
+                // closed in a shuffled order, a few seconds (sometimes days) apart
+                let mut order: Vec<u64> = durs.iter().take(b).cloned().collect();
+                for i in (1..order.len()).rev() {
+                    order.swap(i, rng.below(i as u64 + 1) as usize);
+                }
+                for d in order {
+                    let dt = match rng.below(8) {
+                        0 => 0,
+                        1 => rng.range(1000, 200_000),
+                        _ => rng.range(1, 60),
+                    };
+                    sc.push((0, dt, format!("{u} close_position {d}")));
+                }
+                closed += b as u64;
+            }
+            // some stay open while the address withdraws
+            for d in durs.iter().take(rng.below(4) as usize) {
+                let a = 1 + rng.log_uniform(30);
+                sc.push((0, 1, format!("{u} open_position {a} {d} - 0:{a}")));
+            }
+            let wait = match rng.below(5) {
+                0 => 0,
+                1 => hi + 10,
+                2 => lo + 1,
+                _ => rng.range(lo, hi),
+            };
+            sc.push((rng.below(2), wait, format!("{u} withdraw")));
+            sc.push((0, rng.range(0, 50), format!("{u} withdraw")));
+            let more = rng.range(1, 5);
+            for d in durs.iter().take(more as usize) {
+                let a = 1 + rng.log_uniform(30);
+                sc.push((0, 1, format!("{u} expand_position {a} {d} - 0:{a}")));
+                sc.push((0, 1, format!("{u} open_position {a} {d} - 0:{a}")));
+                sc.push((0, 1, format!("{u} close_position {d}")));
+            }
+            sc.push((0, rng.range(0, hi), format!("{u} withdraw")));
+        } else if which == 3 {
+            // MANY flows (up to max_concurrent_flows and one beyond, in every asset incl. the look-alikes), many
+            // claims: the address stakes, flows are opened until the limit refuses, then epochs pass with a
+            // snapshot and claims in each, an expansion now and then
+            let n_flows = self.w.as_ref().unwrap().prev.flows.len() as u64;
+            let d = rng.range(cfg.min_dur.max(MIN_D), cfg.max_dur.min(MAX_D));
+            let a1 = 1000 + rng.log_uniform(60);
+            sc.push((0, 10, format!("{u} open_position {a1} {d} - 0:{a1}")));
+            let mut pool: Vec<usize> = (1..NA).filter(|a| !dead(&cfg, *a)).collect();
+            pool.push(0);
+            let len = rng.range(8, 40);
+            let room = cfg.max_flows.saturating_sub(n_flows);
+            for j in 0..room + 1 {
+                let asset = pool[(j as usize + rng.below(2) as usize) % pool.len()];
+                let extra = if asset == cfg.fee_asset { cfg.fee_amt } else { 0 };
+                let f = 10_000 + rng.log_uniform(60) + extra;
+                let creator = ACCTS[1 + rng.below(5) as usize];
+                sc.push((0, 5, Self::flow_body(&cfg, creator, asset, f, e + rng.below(2), e + len + rng.below(5))));
+            }
+            let rounds = rng.range(8, 30);
+            for r in 0..rounds {
+                sc.push((1, 10, format!("{} snapshot", ACCTS[1 + rng.below(4) as usize])));
+                sc.push((0, 10, format!("{u} claim")));
+                if rng.chance(1, 3) {
+                    sc.push((0, 10, format!("{} claim", ACCTS[1 + rng.below(5) as usize])));
+                }
+                if r % 5 == 2 {
+                    let k = rng.below(cfg.max_flows);
+                    let x = 1 + rng.log_uniform(40);
+                    sc.push((0, 10, format!("dave expand_flow @f{k} @a{k} {x} - @a{k}:{x}")));
+                }
+            }
+        } else if which == 4 {
+            // LOOK-ALIKE assets: a flow in a cw20 token and a flow in the native denom that spells the token's
+            // address are different flows in different assets; each is expanded naming the OTHER kind (paying in
+            // the other kind), then in its own kind; a native flow is expanded naming the token that spells its
+            // denom. A staker claims in between, the flows are closed at the end.
+            let mut cw: Vec<usize> = vec![3, 4];
+            if !cfg.lp_native {
+                cw.push(0);
+            }
+            let x = *rng.pick(&cw);
+            let t = twin(x);
+            let y = *rng.pick(&[1usize, 2]);
+            let d = rng.range(cfg.min_dur.max(MIN_D), cfg.max_dur.min(MAX_D));
+            let a1 = 1000 + rng.log_uniform(60);
+            let len = rng.range(6, 30);
+            let fee_extra = |a: usize| if a == cfg.fee_asset { cfg.fee_amt } else { 0 };
+            let f1 = 5_000 + rng.log_uniform(50) + fee_extra(x);
+            let f2 = 5_000 + rng.log_uniform(50) + fee_extra(t);
+            let f3 = 5_000 + rng.log_uniform(50) + fee_extra(y);
+            let (x1, x2, x3) = (1 + rng.log_uniform(40), 1 + rng.log_uniform(40), 1 + rng.log_uniform(40));
+            let who = ACCTS[4 + rng.below(2) as usize];
+            sc.push((0, 10, format!("{u} open_position {a1} {d} - 0:{a1}")));
+            sc.push((0, 10, Self::flow_body(&cfg, who, x, f1, e, e + len)));
+            // the cw20 flow, expanded with look-alike COINS
+            sc.push((0, 10, format!("{who} expand_flow @new {t} {x1} - {t}:{x1}")));
+            sc.push((0, 10, format!("{who} expand_flow @new {t} {x1} - {t}:{x1} {x}:{x1}")));
+            sc.push((0, 10, format!("{who} expand_flow @new {x} {x1} - {x}:{x1}")));
+            sc.push((1, 10, format!("{u} snapshot")));
+            sc.push((0, 10, format!("{u} claim")));
+            // a flow in the look-alike denom: named natively with coins (accepted: it is just another denom), and
+            // named natively while only the token allowance is offered (refused)
+            sc.push((0, 10, Self::flow_body_paid(&cfg, who, t, x, f2, e + 1, e + 1 + len)));
+            sc.push((0, 10, Self::flow_body(&cfg, who, t, f2, e + 1, e + 1 + len)));
+            sc.push((0, 10, format!("{who} expand_flow @new {x} {x2} - {x}:{x2}")));
+            sc.push((0, 10, format!("{who} expand_flow @new {t} {x2} - {t}:{x2}")));
+            // a native flow, named as the token that spells its denom
+            sc.push((0, 10, Self::flow_body_paid(&cfg, who, twin(y), y, f3, e + 1, e + 1 + len)));
+            sc.push((0, 10, Self::flow_body(&cfg, who, y, f3, e + 1, e + 1 + len)));
+            sc.push((0, 10, format!("{who} expand_flow @new {} {x3} - {y}:{x3}", twin(y))));
+            sc.push((0, 10, format!("{who} expand_flow @new {y} {x3} - {y}:{x3}")));
+            for _ in 0..rng.range(1, 4) {
+                sc.push((1, 10, format!("{u} snapshot")));
+                sc.push((0, 10, format!("{u} claim")));
+            }
+            for k in 0..3 {
+                if rng.chance(2, 3) {
+                    sc.push((0, 10, format!("owner close_flow @f{k}")));
+                }
+            }
         } else {
             // an address idle for more than EPOCH_CLAIM_CAP epochs of a long flow claims (capped), a second
             // flow in the same reward asset is opened, and the address claims again
@@ -1742,6 +2105,21 @@ impl Incentive {
             if de > 0 {
                 self.g_new_epoch = true;
             }
+            // placeholders, resolved against the flows listed now: `@new` = id of the newest flow, `@fK` / `@aK`
+            // = id / asset of the K-th listed flow (of the last one when there are fewer; 0 when there is none)
+            let body = if body.contains('@') {
+                let fl = &self.w.as_ref().unwrap().prev.flows;
+                let newest = fl.iter().map(|f| f.id).max().unwrap_or(0);
+                let mut b = body.replace("@new", &newest.to_string());
+                for k in (0..16usize).rev() {
+                    let f = fl.get(k).or(fl.last());
+                    b = b.replace(&format!("@f{k}"), &f.map(|f| f.id).unwrap_or(0).to_string());
+                    b = b.replace(&format!("@a{k}"), &f.map(|f| f.asset.min(NA - 1)).unwrap_or(1).to_string());
+                }
+                b
+            } else {
+                body
+            };
             return format!("{} {} {body}", self.g_epoch, self.g_time);
         }
         let w = self.w.as_ref().unwrap();
@@ -1794,6 +2172,13 @@ impl Incentive {
             };
             if off == 0 {
                 String::new()
+            } else if !cfg.lp_native && rng.chance(1, 25) {
+                // coins of the native denom that spells the LP token's address instead of (or on top of) the allowance
+                if rng.chance(1, 2) {
+                    format!(" 5:{off}")
+                } else {
+                    format!(" 0:{off} 5:{off}")
+                }
             } else {
                 format!(" 0:{off}")
             }
@@ -1906,6 +2291,22 @@ impl Incentive {
                         3 => (e + rng.below(3)).to_string(),
                         _ => (e + rng.range(3, 30)).to_string(),
                     };
+                    // the asset NAMED in the message: one time in seven the same name in the WRONG KIND; what is
+                    // offered is then the look-alike itself (coins of the denom that spells the token's address:
+                    // a legitimate flow in another asset), or what the rightly named flow would need, or both
+                    let named = if rng.chance(1, 7) { twin(asset) } else { asset };
+                    let mode = rng.below(4);
+                    let (asset, also) = if named == asset {
+                        (asset, None)
+                    } else if dead(&cfg, named) {
+                        (asset, None)
+                    } else {
+                        match mode {
+                            0 | 1 => (named, None),
+                            2 => (asset, None),
+                            _ => (named, Some(asset)),
+                        }
+                    };
                     // what is offered: normally exactly what is needed
                     let fee = cfg.fee_amt;
                     let mut offers: Vec<(usize, u128)> = vec![];
@@ -1936,8 +2337,13 @@ impl Incentive {
                         offers.push((cfg.fee_asset, fv));
                         offers.push((asset, av));
                     }
+                    if let Some(x) = also {
+                        if offers.iter().all(|o| o.0 != x) {
+                            offers.push((x, amt));
+                        }
+                    }
                     let offs: String = offers.iter().filter(|o| o.1 > 0).map(|o| format!(" {}:{}", o.0, o.1)).collect();
-                    return format!("{e} {t} {} open_flow {asset} {amt} {start} {end}{offs}", ACCTS[u]);
+                    return format!("{e} {t} {} open_flow {named} {amt} {start} {end}{offs}", ACCTS[u]);
                 }
                 7 => {
                     if n_flows == 0 && rng.chance(9, 10) {
@@ -1949,7 +2355,21 @@ impl Incentive {
                     } else {
                         (rng.range(0, 6), rng.below(NA as u64) as usize, e)
                     };
-                    let asset = if rng.chance(1, 25) { rng.below(NA as u64) as usize } else { asset };
+                    let asset = if rng.chance(1, 25) { rng.below(NA as u64) as usize } else { asset.min(NA - 1) };
+                    // one expansion in five names the flow's asset in the WRONG KIND and pays in that kind (coins of
+                    // the look-alike denom / the allowance of the token that spells the denom), or in the flow's own
+                    // kind, or both
+                    let (asset, pay): (usize, Vec<usize>) = if rng.chance(1, 5) {
+                        let tw = twin(asset);
+                        match rng.below(4) {
+                            0 | 1 => (tw, vec![tw]),
+                            2 => (tw, vec![asset]),
+                            _ => (tw, vec![tw, asset]),
+                        }
+                    } else {
+                        (asset, vec![asset])
+                    };
+                    let pay: Vec<usize> = pay.into_iter().filter(|a| !dead(&cfg, *a)).collect();
                     let u = if rng.chance(1, 2) { 4 } else { actor(rng) };
                     let amt = match rng.below(6) {
                         0 => rng.below(3) as u128,
@@ -1967,7 +2387,7 @@ impl Incentive {
                         1 => amt + 1,
                         _ => amt,
                     };
-                    let offs = if off > 0 { format!(" {asset}:{off}") } else { String::new() };
+                    let offs: String = if off > 0 { pay.iter().map(|a| format!(" {a}:{off}")).collect() } else { String::new() };
                     return format!("{e} {t} {} expand_flow {id} {asset} {amt} {end}{offs}", ACCTS[u]);
                 }
                 8 => {
@@ -2001,6 +2421,23 @@ impl Incentive {
                     }
                     if o1 > 0 {
                         offs.push_str(&format!(" 3:{o1}"));
+                    }
+                    if rng.chance(1, 8) {
+                        // the deposited assets named in the wrong kind (the token that spells `uwhale` / the denom
+                        // that spells the cw20's address), paid in the right kind, in the look-alike coins, or both
+                        let (x0, x1) = *rng.pick(&[(6usize, 3usize), (1, 8), (6, 8)]);
+                        let mut offs = String::new();
+                        if o0 > 0 {
+                            offs.push_str(&format!(" 1:{o0}"));
+                        }
+                        if o1 > 0 {
+                            match (x1, rng.below(3)) {
+                                (8, 0) => offs.push_str(&format!(" 8:{o1}")),
+                                (8, 1) => offs.push_str(&format!(" 3:{o1} 8:{o1}")),
+                                _ => offs.push_str(&format!(" 3:{o1}")),
+                            }
+                        }
+                        return format!("{e} {t} {} helper_deposit_as {x0} {x1} {a0} {a1} {d}{offs}", ACCTS[u]);
                     }
                     return format!("{e} {t} {} helper_deposit {a0} {a1} {d}{offs}", ACCTS[u]);
                 }
